@@ -7,7 +7,11 @@ from .terms import Terms, subterms
 from .ir import short_type
 
 NONREENTRANT = {'rand', 'srand', 'strtok', 'localtime', 'gmtime', 'asctime', 'ctime', 'setlocale', 'tmpnam',
-                'strerror', 'getlogin', 'ttyname'}
+                'strerror', 'getlogin', 'ttyname', 'setenv', 'putenv', 'unsetenv', 'sync_with_stdio', 'set_terminate',
+                'set_new_handler', 'signal', 'chdir', 'umask'}
+# functions that replace process-wide state (qualified names): a const operation that calls one changes what every other
+# thread observes, and a save / set / restore pair around it is not atomic
+PROCESS_GLOBAL = {'std::locale::global', 'std::ios_base::sync_with_stdio', 'std::set_terminate', 'std::set_new_handler'}
 
 # re-exported non-const members allowed in the classes that inherit non-publicly (D-ENC)
 USING_ALLOW = {
@@ -123,6 +127,13 @@ def rule_pure(m):
                     res.fail(Finding('D-PURE', f.display(), 'thread started by the library', f.nloc(n['i']),
                                      '%s starts another thread (%s): whatever that thread shares with its creator (locals captured by '
                                      'reference, the graph) is accessed concurrently inside a single call' % (f.display(), d.get('tname'))))
+                if d and d.get('tname') in PROCESS_GLOBAL:
+                    res.sites += 1
+                    res.fail(Finding('D-PURE', f.display(), 'call to ' + d['tname'], f.nloc(n['i']),
+                                     '%s replaces process-wide state from inside a library operation: every other thread - including '
+                                     'concurrent read-only calls on the same graph - observes the change, and setting and restoring '
+                                     'it is not atomic (two overlapping calls can leave the replaced value behind)' % d['tname']))
+                    continue
                 if d and d.get('name') in NONREENTRANT and not d.get('inroots'):
                     res.sites += 1
                     res.fail(Finding('D-PURE', f.display(), 'call to ' + d['name'], f.nloc(n['i']),
@@ -382,6 +393,10 @@ def rule_encapsulation(m):
                               'allow-list')
     nonpublic_derived = {LUG, DMG, UMG, DWG, UWG}
     seen = set()
+    by_tname = {}
+    for u, r in _records(m, m.std):
+        if r['tname'] in GRAPH_CLASSES and not r['dependent']:
+            by_tname.setdefault(r['tname'], r)
     for u, r in _records(m, m.std):
         if r['tname'] not in GRAPH_CLASSES or r['dependent']:
             continue
@@ -424,6 +439,20 @@ def rule_encapsulation(m):
                 if t['dk'] not in ('CXXMethod', 'FunctionTemplate'):
                     continue
                 res.sites += 1
+                # a re-export names the member its direct base offers under that name: naming a base further up skips the
+                # redefinition in between (e.g. the undirected edges() that yields one orientation per edge)
+                skipped = None
+                for b in r['bases']:
+                    if b.get('tname') in GRAPH_CLASSES:
+                        offered = _resolve_member(by_tname, b['tname'], us['name'])
+                        if offered and t['tname'] not in offered:
+                            skipped = (b['tname'], sorted(offered)[0])
+                if skipped:
+                    res.fail(Finding('D-ENC', cname, 'using %s bypasses the direct base' % us['name'], _loc(u, us['loc']),
+                                     '%s re-exports %s, but its direct base %s offers %s under that name: the re-export skips the '
+                                     'base\'s own definition' % (cname, t['tname'].replace(NS, ''), short(skipped[0]),
+                                                                 skipped[1].replace(NS, ''))))
+                    continue
                 rt = t.get('crtype', '')
                 if _mutable_handle(rt):
                     res.fail(Finding('D-ENC', cname, 'using %s returns mutable handle' % us['name'], _loc(u, us['loc']),
@@ -443,6 +472,25 @@ def rule_encapsulation(m):
                     res.ok(None)
     res.require_sites(30, 'fields / methods / using declarations')
     return res
+
+
+def _resolve_member(by_tname, cls, name, depth=0):
+    """qualified names of the member functions class `cls` offers under `name`: its own, else what its using-declaration
+    names, else what its graph-class bases offer"""
+    r = by_tname.get(cls)
+    if r is None or depth > 4:
+        return set()
+    own = {cls + '::' + me['name'] for me in r['methods'] if me['name'] == name}
+    if own:
+        return own
+    via = {t['tname'] for us in r['usings'] if us['name'] == name for t in us['targets']}
+    if via:
+        return via
+    out = set()
+    for b in r['bases']:
+        if b.get('tname') in by_tname:
+            out |= _resolve_member(by_tname, b['tname'], name, depth + 1)
+    return out
 
 
 def _mutable_handle(rt):
